@@ -1450,7 +1450,21 @@ def _graph_origin(ctx: Ctx, f: FuncInfo, a: ast.AST, depth: int = 0) -> str:
         params = [x.arg for x in f.node.args.posonlyargs + f.node.args.args + f.node.args.kwonlyargs]
         asg = [n for n in ctx.reaching_defs(f, a.id, a) if isinstance(n, ast.Assign)]
         if asg and depth < 3:
-            return _mix(_graph_origin(ctx, f, n.value, depth + 1) for n in asg)
+            kinds_ = []
+            for n in asg:
+                tg = n.targets[0]
+                v_ = n.value.value if isinstance(n.value, ast.Await) else n.value
+                if isinstance(tg, (ast.Tuple, ast.List)) and isinstance(v_, ast.Call):
+                    # `g, r = self.helper()`: the element of the helper's returned tuple at the position of the name
+                    pos = next((i for i, t in enumerate(tg.elts) if isinstance(t, ast.Name) and t.id == a.id), None)
+                    q_ = _callee_of(ctx, f, v_)
+                    g_ = ctx.P.funcs.get(q_) if q_ else None
+                    rets_ = [x for x in iter_own_nodes(g_.node) if isinstance(x, ast.Return) and x.value is not None] if g_ is not None else []
+                    if pos is not None and rets_ and all(isinstance(x.value, ast.Tuple) and len(x.value.elts) == len(tg.elts) for x in rets_):
+                        kinds_.append(_mix(_graph_origin(ctx, g_, x.value.elts[pos], depth + 1) for x in rets_))
+                        continue
+                kinds_.append(_graph_origin(ctx, f, n.value, depth + 1))
+            return _mix(kinds_)
         if a.id in params:
             # a parameter: every caller must hand in the same kind of graph
             callers = ctx.callers_of(f.qualname)
